@@ -94,6 +94,9 @@ def outcomes():
             continue   # (deprecated NoResource takes no text)
         o["raise-" + name + "-text"] = (lambda cls=cls: (_ for _ in ()).throw(cls("why-" + cls.__name__)),
                                         (int(cls.code), ("why-" + cls.__name__).encode()))
+    # a diagnostic payload is UTF-8 text (RFC 7252 section 5.5.2), not ASCII
+    o["raise-BadRequest-nonascii"] = (lambda: (_ for _ in ()).throw(error.BadRequest("Ung\u00fcltige Gr\u00f6\u00dfe \u2013 \U0001F4A5")),
+                                      (128, "Ung\u00fcltige Gr\u00f6\u00dfe \u2013 \U0001F4A5".encode("utf8")))
     for exc in (ValueError, KeyError, AssertionError, asyncio.TimeoutError, OSError, RuntimeError):
         o["raise-" + exc.__name__] = (lambda exc=exc: (_ for _ in ()).throw(exc(MARK + "-" + exc.__name__)), "bare500")
     for nm, val in (("None", None), ("bytes", (MARK + "b").encode()), ("str", MARK + "s"), ("int", 0), ("dict", {})):
